@@ -725,11 +725,16 @@ static Cfg random_cfg(vh::Rng& rng, long i) {
   c.backing = backs[i % 4];
   c.R = rng.range(0, 9) < 6 ? 3 : 2;
   c.N = 2 * rng.range(2, 4);
+  // deeper bounds (thorough tier): 4 rings = up to 7 segments with 1..4 axial positions, more often 5 TOF bins
+  static const bool deep = getenv("C02_DEEP") != nullptr;
+  const bool four = deep && rng.range(0, 3) == 0;
+  if (four) { c.R = 4; c.N = 4; }
   c.viewMash = (c.N == 8 && rng.coin()) ? 2 : 1;
   c.maxDelta = rng.range(0, 9) < 7 ? c.R - 1 : rng.range(0, c.R - 1);
   c.ntang = rng.range(2, 3);
   c.tofMash = (i / 4) % 2 ? 3 : 0;     // number of TOF positions (0 = non-TOF)
-  if (c.tofMash && rng.range(0, 4) == 0) c.tofMash = 5;
+  if (c.tofMash && rng.range(0, deep ? 1 : 4) == 0) c.tofMash = 5;
+  if (four) c.ntang = 2;
   if (c.tofMash == 5 && c.R == 3 && c.maxDelta == 2) c.ntang = 2;
   c.tofOne = c.tofMash > 0 && rng.range(0, 5) == 0;
   c.segReduce = 0;
